@@ -416,7 +416,7 @@ def check_conservation(rep, crate, cfg):
                       'on every feasible Ok path on which `%s` received elements it is moved into the result (%d Ok path states)' % (name, len(okp)),
                       'elements parsed into `%s` are dropped on a feasible Ok path: the parser accepts the text while ignoring part of it' % name,
                       {'ok_paths': len(okp), 'dropping_paths': len(dropped)})
-    rep.floor('R13.6', 6, 'accumulators in parser functions')
+    rep.floor('R13.6', 3, 'accumulators in parser functions')
 
 
 CLASS_CALLS = {'is_ascii_alphanumeric', 'is_ascii_alphabetic', 'is_ascii_uppercase', 'is_ascii_lowercase', 'is_ascii_digit'}
@@ -708,12 +708,27 @@ def check_grammar(fx, rep, rule='R13.11'):
                     st.append(y)
         return seen
     rec = {n for n in parser_fns if n in reach(n)}
-    entries = sorted(n for n in rec if any(n in graph[m] for m in parser_fns if m not in rec))
-    if len(entries) != 1:
-        rep.bad(rule, 'anchor|type-entry', where, 'expected the recursive part of the parser (the type productions) to be entered through exactly one function, found %s '
-                '(recursive functions: %s)' % (entries, sorted(rec)))
+
+    def acyclic_without(v):
+        g = {a: {b for b in graph[a] if b != v and b in rec} for a in rec if a != v}
+        state = {}
+
+        def dfs(x):
+            state[x] = 1
+            for y in g.get(x, ()):
+                if state.get(y) == 1 or (state.get(y) is None and not dfs(y)):
+                    return False
+            state[x] = 2
+            return True
+        return all(state.get(x) == 2 or dfs(x) for x in g)
+    # the type nonterminal: the one function every recursive cycle of the parser goes through
+    feedback = sorted(v for v in rec if acyclic_without(v))
+    entries = sorted(n for n in feedback if any(n in graph[m] for m in parser_fns if m != n))
+    if len(feedback) != 1:
+        rep.bad(rule, 'anchor|type-entry', where, 'expected one function through which every recursive cycle of the parser goes (the type production), found %s '
+                '(recursive functions: %s)' % (feedback, sorted(rec)))
         return
-    cut = entries[0]
+    cut = feedback[0]
     # entry of the module: the non-parser function taking the text and returning the interface
     tops = sorted(n for n, f in fns.items() if not probe.is_parser_fn(n) and 'Interface' in (f.get('sig') or '').split('->')[-1] and 'str' in (f.get('sig') or '').split('->')[0])
     if len(tops) != 1:
@@ -793,5 +808,5 @@ def check(fx, rep, tier):
         check_no_byte_search(rep, crate, cfg)
         nms += check_member_start_after_comments(rep, crate, cfg)
     rep.floor('R13.7', 21, 'scanner verdict instances (3 scanners x 7)')
-    rep.floor('R13.10', 3, 'member-name scan sites')
+    rep.floor('R13.10', 2, 'member-name scan sites')
     return META
